@@ -242,7 +242,10 @@ def parent (u : Url) : Url :=
     if !u.fragment.isEmpty || !u.query.isEmpty then fromParts u.scheme u.netloc u.path [] [] else u
   else
     let ps := splitOn 47 u.path
-    fromParts u.scheme u.netloc (joinC 47 ps.dropLast) [] []
+    let pp := joinC 47 ps.dropLast
+    -- "/name" -> "/" without an authority (fix 264b96e): the absolute path must not become relative
+    let pp := if pp.isEmpty && u.path.head? = some 47 && u.netloc.isEmpty then [47] else pp
+    fromParts u.scheme u.netloc pp [] []
 
 /-- `origin()` -/
 def origin (e : Env) (u : Url) : R Url := do
@@ -325,6 +328,8 @@ def buildPreEncoded (e : Env) (a : BuildArgs) (port : Option Nat) (queryString :
     else []
   fromParts a.scheme netloc a.path queryString a.fragment
 
+def lowerAny (e : Env) (s : Str) : R Str := if isAscii s then pure (lower s) else ask "lowerU" s (e.o.lowerU s)
+
 /-- `URL.build(...)` -/
 def build (e : Env) (a : BuildArgs) : R Url := do
   let portTruthy := match a.portKind, a.port with
@@ -344,8 +349,12 @@ def build (e : Env) (a : BuildArgs) : R Url := do
       else pure a.queryString : R Str)
     if a.encoded then pure (buildPreEncoded e a port queryString)
     else do
+      -- `scheme = scheme.lower()` (fix e21485a): stored lower-case, as by the parser and by with_scheme()
+      let a := { a with scheme := ← lowerAny e a.scheme }
       let netloc ←
         (if !a.authority.isEmpty then do
+          -- the NFKC screen of a non-ASCII authority, as for a parsed URL (fix c2c2803)
+          if !isAscii a.authority then checkNetloc e.o a.authority
           let np ← splitNetloc e.o a.authority
           let h1 ← (match np.host with
             | some h => encodeHost e.o h false
@@ -379,7 +388,6 @@ def build (e : Env) (a : BuildArgs) : R Url := do
 
 /-! ### modifiers -/
 
-def lowerAny (e : Env) (s : Str) : R Str := if isAscii s then pure (lower s) else ask "lowerU" s (e.o.lowerU s)
 
 def withScheme (e : Env) (u : Url) (scheme : Str) : R Url := do
   let lowered ← lowerAny e scheme
@@ -428,7 +436,12 @@ def withPath (e : Env) (u : Url) (path : Str) (encoded keepQuery keepFragment : 
   let p1 :=
     if !encoded then
       let p := q e Gen.PATH_QUOTER path
-      if !u.netloc.isEmpty then (if mem 46 p then normalizePath p else p) else p
+      -- `if netloc and "." in path: path = normalize_path(path if path[0] == "/" else "/" + path)` (rooted first: fix 7cae68c)
+      if !u.netloc.isEmpty && mem 46 p then
+        normalizePath (match p with
+          | 47 :: _ => p
+          | _ => 47 :: p)
+      else p
     else path
   let p2 := match p1 with
     | [] => p1
